@@ -52,6 +52,7 @@ def case_st():
         "arrivals": st.lists(st.tuples(st.integers(0, len(DTS) - 1), st.sampled_from(["a", "a", "b", "c"]), st.integers(1, 3)),
                              min_size=1, max_size=200),
         "cleanup": st.sampled_from([True, True, True, False]),
+        "vary_fp": st.booleans(),
     })
 
 
@@ -66,6 +67,26 @@ def enum_small(tier):
                     # dts 400/700 are not on the grid: encode them directly
                     arr = [[("raw", dts[x // 2]), "ab"[x % 2], 1] for x in seq]
                     yield {"capacity": cap, "rate": rate, "retry_after": 30, "arrivals": arr, "cleanup": True}
+
+
+@st.composite
+def crowd_case(draw):
+    """Many tracked addresses (around the clean-up's internal batch sizes) and arrivals exactly at clean-up ticks."""
+    n = draw(st.sampled_from([200, 255, 256, 257, 300, 520]))
+    cap = draw(st.integers(1, 3))
+    arrivals = [[("raw", 0), f"x{i}", 1] for i in range(n)]
+    tick = draw(st.sampled_from([900, 1200, 1500]))
+    victims = draw(st.lists(st.integers(0, n - 1), min_size=1, max_size=4, unique=True))
+    # full buckets again by then (fast refill), idle > 600 s
+    first = True
+    for rep in range(draw(st.integers(1, 3))):
+        for v in victims:
+            arrivals.append([("raw", tick if first else 0), f"x{v}", draw(st.integers(1, 3))])
+            first = False
+    for v in victims:
+        arrivals.append([("raw", draw(st.sampled_from([0, 0.001, 1]))), f"x{v}", draw(st.integers(1, 3))])
+    return {"capacity": cap, "rate": "1", "retry_after": 30, "arrivals": arrivals, "cleanup": True, "vary_fp": False,
+            "concurrent_tick": True}
 
 
 def _dt(x):
@@ -100,10 +121,15 @@ def simulate(case, only_addr=None):
                 if only_addr is not None and addr != only_addr:
                     continue
                 t = loop.time()
+                # the certificate fingerprint and URL vary from request to request: the allowance is per address
+                fps = [None, "sha256:" + "a" * 64, "sha256:" + "b" * 64]
+                k = len(out)
                 if burst == 1:
-                    res = [await rl.process_request("gemini://h/", addr, None)]
+                    res = [await rl.process_request(f"gemini://h/{k % 3}", addr, fps[k % 3] if case.get("vary_fp") else None)]
                 else:
-                    res = await asyncio.gather(*[rl.process_request("gemini://h/", addr, None) for _ in range(burst)])
+                    res = await asyncio.gather(*[rl.process_request(f"gemini://h/{(k + j) % 3}", addr,
+                                                                    fps[(k + j) % 3] if case.get("vary_fp") else None)
+                                                 for j in range(burst)])
                 for allow, resp in res:
                     out.append((t, addr, bool(allow), resp))
             if case["cleanup"]:
@@ -226,6 +252,11 @@ LANES = [
     Lane(name="small-scope", run_case=run_case, enumerate=enum_small, budget={"quick": 1, "thorough": 1},
          shards={"quick": 16, "thorough": 64}, nontrivial=_nontrivial, labels=_labels, bucket=_bucket, exhaustive=True,
          rule="capacity<=2 x rate {0.001,1} x dt {0,1,400,700} x 2 addresses x length<=5 (quick) / 6 (thorough), exhaustive"),
+    Lane(name="crowd", run_case=run_case, strategy=crowd_case, budget={"quick": 160, "thorough": 3000},
+         shards={"quick": 16, "thorough": 32}, nontrivial=lambda c, v: True,
+         labels=lambda c, v: ["n:%d" % sum(1 for a in c["arrivals"] if a[0] == ["raw", 0] or a[0] == ("raw", 0)), "has-refusal" if v.info.get("refusals") else "no-refusal"],
+         bucket=_bucket,
+         rule="200-520 tracked addresses, victims idle > 600 s and full again, bursts landing exactly on a clean-up tick"),
     Lane(name="histories", run_case=run_case, strategy=case_st, budget={"quick": 4000, "thorough": 120000},
          shards={"quick": 16, "thorough": 64}, nontrivial=_nontrivial, labels=_labels, bucket=_bucket,
          rule="random histories up to 200 arrivals (bursts up to 3) over 3 addresses spanning several clean-up periods"),
